@@ -7,10 +7,26 @@ TRUST = ("Lean 4.33 kernel + leanchecker; axioms propext/Classical.choice/Quot.s
          "validated against /repo's working tree by the correspondence check on every run (generators bound what the tie has "
          "seen); harness oracles; go.sia.tech/core, bbolt, mux, quic-go and the Go runtime are parameters or unmodelled.")
 CHECKS = {
+ "C01": dict(level="proof", design="5/C01",
+   technique="Lean 4 inductive invariant over all submission histories of a model of chain.Manager (AddBlocks/reorgTo/reorgPath transcribed from manager.go), incl. a correctness proof of the two-pointer reorgPath and of the rollback of failed reorgs + differential correspondence on generated fork trees of real blocks with single-field corruptions",
+   text="Theorems (Props/C01.lean, for every block universe U, every history of batches, no bound): the invariant Inv (best chain parent-linked from genesis, every block on it stored with supplement and validated, states closed under parents) holds in every reachable state (inv_reachable, best_chain_valid); AddBlocks never panics and a failed reorg is always rolled back (never_panics); any error leaves best chain and notifications unchanged (error_rolls_back); the tip moves only to a sufficiently heavier chain and then exactly one notification is delivered (tip_moves_only_if_heavier); tip work is monotone over histories (tip_work_mono_history); reorgPath returns the two legs through a common ancestor and never fails on stored blocks (reorgPath_correct). Tie: fork trees of real blocks mined on independent linear twins (random hardfork heights, v1/v2 transactions, 10 corruption kinds, empty blocks on header-valid corrupted ones) are submitted in generated schedules (batches, duplicates, orphans first, mixed branches) to the real Manager; after every AddBlocks the error kind, tip, notification count and the whole best index are compared with the model; the oracle re-derives validity of every best-chain block from the twins, compares TipState with a linear replay and checks work monotonicity and rollback.",
+   note=TRUST + " Consensus rules are parameters of the model (block attributes computed by core/consensus on a linear twin). AddValidatedV2Blocks is modelled and tied but its invariant theorem (under PreValidated) is not yet proved. time.Now() in the future-block test is avoided (timestamps years away from the boundary)."),
+ "C19": dict(level="proof", design="5/C19",
+   technique="Lean 4 theorems on the prune/AddBlocks model of chain.Manager + differential correspondence and an unpruned real twin on generated histories with interleaved prunes and resubmission of pruned blocks",
+   text="Theorems (Props/C19.lean): PruneBlocks changes nothing but the bodies/supplements of best-chain blocks below min(height, tip+1) (prune_only_bodies), prunes exactly those when the chain was unpruned (prune_exact), keeps tip, best index, headers, states and history (prune_keeps_queries), and resubmitting a pruned block is a no-op of the per-block loop (resubmit_pruned_skipped). Tie: C01's trees and schedules with PruneBlocks(0/1/mid/tip/tip+1/beyond) interleaved, repeated prunes, forks above/at/below the pruned height and resubmission of pruned blocks; result, tip, best index, per-block header/body/supplement/state presence, MinReorgIndex and History compared with the model after every step; oracle: an unpruned real twin receiving the same submissions (same tip, best index, headers, states, history, results unless the fork point is below MinReorgIndex), exactly the best-chain bodies below the height are gone, no panic.",
+   note=TRUST + " The simulation theorem pruned ~ unpruned and 'never panics with pruning' are checked by the tie/oracle only (not yet proved)."),
+ "C04": dict(level="proof", design="5/C04",
+   technique="Lean 4 theorems on the updatesSince model (path shape, bound, progress) over the C01 invariant + differential correspondence with shadow-ledger oracle against linear twins",
+   text="Theorems (Props/C04.lean) over every reachable manager: see file. Tie: subscribers with chunk sizes {1,2,3,7,1000}, lagging and partially catching up (also ending on a revert), plus a late subscriber from nothing, poll UpdatesSince while fork trees are submitted; every returned path is compared with the model; oracle: reverts/applies contiguous, applies on the best chain, at most max updates, progress, every subscriber reaches the tip, and its shadow ledger folded from the carried diffs equals the ledger of an independent linear twin at the tip incl. Merkle proofs, which verify against the tip accumulator.",
+   note=TRUST + " Merkle proof values and element contents are oracle-only (the model carries block ids). Concurrent polling is covered by the lock-discipline argument (every exported Manager method holds m.mu), not by a schedule exploration."),
  "C17": dict(level="proof", design="5/C17",
    technique="Lean 4 refinement proof (MemDB model refines an abstract durable/working map for every operation sequence) + exhaustive/random differential correspondence of the model with the real MemDB/CacheDB/Bolt backends",
    text="Theorem: the Lean model of MemDB (transcribed from chain/db.go) refines the abstract map specification step by step, hence returns the same results on every operation sequence of any length (memdb_trace_eq); the specification's read-your-writes/flush/cancel laws are theorems. Tie: every op sequence over a small alphabet up to length 5 (quick) / 6 (thorough) and long random sequences are executed on the real MemDB, CacheDB(MemDB), CacheDB(Bolt) and Bolt and compared line by line with the executable models (MemDB, CacheDB over MemDB/Spec, Spec) and with a reference map. CacheDB is covered by the executable model + exhaustive correspondence; its refinement theorem is not yet proved.",
    note=TRUST + " bbolt itself is not modelled (compared with Spec). Bucket handles are re-fetched per operation."),
+ "C20": dict(level="proof", design="5/C20",
+   technique="Lean 4 theorems over a bit-level model of wallet/seed.go (uint64 hi/lo pair, the source's shifts and masks, proved equal to base-2048 digits of entropy*16+checksum; all 2^128 entropies, all word sequences, all strings, any checksum function) + word table and codec literals re-extracted from the source and re-checked by the Lean kernel on every run + differential correspondence and independent reference oracle on the real codec, SeedFromPhrase, KeyFromSeed, NewSeedPhrase",
+   text="Theorems (Props/C20.lean, no bounds): decode(encode e) = e for every e < 2^128 (decode_encode); a word sequence decodes iff it has 12 in-range words and the checksum nibble matches, the entropy then being value/16 (decode_ok_iff, decode_count_iff, decode_unknown_iff, decode_checksum_iff); every sequence that decodes re-encodes to itself (encode_decode); the code-level hi/lo codec equals the base-2048-digit specification (code_eq_spec_encode/decode, pair_shr, pair_shl); the same on strings over the extracted word table (phrase_decode_encode, phrase_decode_ok_iff, phrase_encode_decode, phrase_wrong_count, phrase_unknown_word, phrase_case_rejected); every white-space rendering of the same tokens tokenises and decodes identically (fields_render, decodePhrase_whitespace_invariant); the hashed byte strings separate (seed,index) for all uint64 indices and separate entropies (kdfInput_injective, seedInput_injective). The checksum is a parameter (any function into 0..15; instantiated with (sha256[0]&0xF0)>>4 for any SHA-256). Regenerated tie: srcfacts extracts the 2048-word table and the integer literals / byte-order selectors of bip39checksum, encodeBIP39Phrase, decodeBIP39Phrase, KeyFromSeed from wallet/seed.go; the kernel checks length 2048, strict sortedness (hence distinct), lower-case ASCII only (hence no white space) and equality of the literals with the model's constants. Correspondence + oracle: uniform entropies, all 128 one-bit and one-zero-bit entropies, 0 and 2^128-1, every value of every word position over base phrases (12x2048 exhaustive), uniform and near-valid word sequences, 0..24 words, non-words, case changes, ASCII/Unicode white-space renderings, look-alike non-spaces, unicode.IsSpace over all code points, NewSeedPhrase outputs, SeedFromPhrase = blake2b(entropy), KeyFromSeed = ed25519(blake2b(seed||LE64(index))) over boundary/random/consecutive indices, repeated calls, distinct indices give distinct keys.",
+   note=TRUST + " SHA-256, BLAKE2b and Ed25519 are not modelled (the harness passes the first SHA-256 byte to the model and compares hash pre-images through x/crypto/blake2b + crypto/ed25519). Strings are valid UTF-8 code-point lists; encoding/binary and strings.Fields/Join are modelled by their documented behaviour. A phrase re-encodes to itself up to the white space strings.Fields discards (exactly when it is in the canonical single-space form)."),
 }
 NOT_APPLICABLE = []
 def main():
@@ -53,6 +69,7 @@ def main():
     }
     json.dump(m, open(os.path.join(ROOT, "MANIFEST.json"), "w"), indent=1)
     json.dump({k: v["level"] for k, v in CHECKS.items()}, open(os.path.join(ROOT, "levels.json"), "w"), indent=1)
-HOOK_COMMITS = []
+HOOK_COMMITS = ["3f70911 verif hook: wallet: expose the BIP-39 codec, checksum and word table (wallet/verif_hooks.go)"]
+
 if __name__ == "__main__":
     main()
